@@ -44,8 +44,15 @@ def _shard(name, shard, nshards, tier, seed):
     return c
 
 
+def _shard_fv(name, shard, nshards, tier, seed):
+    from . import c13
+    return c13._shard('mps.from_vector.tol', shard, nshards, tier, seed + 77)
+
+
 def correspondence(tier, seed):
-    return [common.parallel_shards(_shard, 'history', tier, seed)]
+    c = common.parallel_shards(_shard_fv, 'mps.from_vector.tol', tier, seed)
+    c.name = 'mps.from_vector (truncating)'
+    return [common.parallel_shards(_shard, 'history', tier, seed), c]
 
 
 # ----------------------------------------------------------------------------- oracle
@@ -57,6 +64,33 @@ def oracle_history(rng, nsteps):
     from .c01 import dense_mps, dense_mpo
     pool = [rnd_like(rng, o, rng.random() < 0.5) for o in history.init_pool(rng)]
     log = []
+    if rng.random() < 0.3:
+        # pool without quantum numbers, seeded with states built by MPS.from_vector (truncating: tol > 0, product states, exact zeros)
+        L = pool[0].nsites; d = len(pool[0].qd)
+        for o in pool:
+            o.zero_qnumbers()
+        for _ in range(2):
+            kind = int(rng.integers(0, 3))
+            if kind == 0:
+                v = rng.standard_normal(d ** L); tol = float(rng.choice([0.02, 0.1, 0.3]))
+            elif kind == 1:
+                v = np.zeros(d ** L); v[int(rng.integers(0, d ** L))] = 1.0; tol = 0.0
+            else:
+                f = [rng.standard_normal(d) for _ in range(L)]
+                v = f[0]
+                for x in f[1:]:
+                    v = np.kron(v, x)
+                tol = 1e-12
+            if np.linalg.norm(v) == 0:
+                continue
+            try:
+                pool.append(ptn.MPS.from_vector(d, L, v, tol=tol))
+            except Exception as ex:
+                return f'MPS.from_vector(d={d}, nsites={L}, tol={tol}) raises {type(ex).__name__}: {ex}', log
+            log.append({'h': 'from_vector', 'd': d, 'nsites': L, 'tol': tol, 'v': v.tolist()})
+            if not history.wf(pool[-1]):
+                return (f'MPS.from_vector(d={d}, nsites={L}, tol={tol}) returns an object whose quantum-number lists do not have the '
+                        f'lengths of the bond dimensions: {[len(q) for q in pool[-1].qD]} vs {pool[-1].bond_dims}'), log
     for _ in range(nsteps):
         op = history.choose_op(rng, pool, allow_invalid=0.0)
         log.append({k: v for k, v in op.items()})
